@@ -280,6 +280,9 @@ func (o onlyReader) Read(p []byte) (int, error) { return o.r.Read(p) }
 
 type scenario struct {
 	name string
+	// bound, when set, overrides the preemption/deviation bound for this scenario (wide
+	// fan-outs are run under the canonical schedule plus every single deviation)
+	bound *int
 	// threads[i] is the list of operations thread i runs in order; expect[i][j]
 	// the result of that operation when run alone.
 	body   func(results *[]string) func() // returns the main function for the scheduler
@@ -354,7 +357,11 @@ func (r *runner) explore(sc *scenario) {
 	// baseline alone-results are in sc.expect; check the default schedule first
 	nontrivial := false
 	firstViol := map[string]bool{}
-	ex := &choice.Explorer{Bound: r.bound, Stop: w.Expired}
+	bound := r.bound
+	if sc.bound != nil {
+		bound = *sc.bound
+	}
+	ex := &choice.Explorer{Bound: bound, Stop: w.Expired}
 	ex.Body = func(c *choice.Ctx) {
 		o := execute(sc, c)
 		if o.recycled > 0 || o.preempted {
@@ -400,7 +407,13 @@ func (r *runner) explore(sc *scenario) {
 			}
 		}
 	}
-	ex.Run()
+	if sc.bound != nil && *sc.bound == 0 {
+		// canonical schedule only (free switches at blocking points alone are n! for a fan-out of n)
+		ex.Body(choice.Canonical())
+		ex.Stats.Executions = 1
+	} else {
+		ex.Run()
+	}
 	if ex.Stats.Capped {
 		w.Cap("time budget reached inside scenario " + sc.name)
 	}
@@ -634,6 +647,14 @@ func run(w *ev.W) {
 		}
 	}
 	scs = append(scs, frameScenario(2), fanoutScenario(2, false), fanoutScenario(2, true), fanoutScenario(3, false), fanoutScenario(3, true), fanoutSameName())
+	// every fan-out width 1..20 (and 33, 64), canonical schedule only: each generator's files are in the merge
+	for _, n := range []int{1, 4, 5, 6, 7, 8, 9, 10, 11, 12, 13, 14, 15, 16, 17, 18, 19, 20, 33, 64} {
+		sc := fanoutScenario(n, false)
+		sc.name = fmt.Sprintf("fanout-width-%d", n)
+		zero := 0
+		sc.bound = &zero
+		scs = append(scs, sc)
+	}
 	if !w.Quick() {
 		scs = append(scs, frameScenario(3))
 	}
